@@ -845,7 +845,7 @@ func (g *gen) importStmt(lvl int) string {
 		}
 		if g.t.Bool(1, 2) {
 			s += ind(lvl) + name + ".arr[" + fmt.Sprint(g.t.Draw(3)) + "] = " + g.exprNoVars(tInt, 1) + "\n"
-			s += ind(lvl) + "log(" + name + ".arr, " + name + ".map, " + name + ".nzero, " + name + ".str, " + name + ".arrsum())\n"
+			s += ind(lvl) + "log(" + name + ".arr, " + name + ".map, " + name + ".nzero, " + name + ".str, " + name + ".arrsum(), " + name + ".extra, isFunction(" + name + ".extrafn) ? " + name + ".extrafn() : 0)\n"
 		}
 		if g.t.Bool(1, 3) {
 			// a SyncMap attribute: read, written and read again (every VM has its own copy)
